@@ -333,6 +333,54 @@ def scenarios():
     return {"cases": n, "failures": failures}
 
 
+def extra_layouts():
+    """(a) internal methods (selective generation, generate_omitted_as_internal): the sync client's docstring embeds the sync sample, the asyncio
+    client's the asyncio sample; (b) a request type of a proto-plus dependency package is built from that package, not from the API's own."""
+    import ast
+    from vf import genlab as G
+    from google.iam.v1 import iam_policy_pb2
+    G.stub_pandoc_if_absent()
+    failures = []
+    yaml = {"type": "google.api.Service", "config_version": 3, "name": "lab.example.com", "publishing": {"library_settings": [
+        {"version": PKG, "python_settings": {"common": {"selective_gapic_generation": {"methods": [PKG + ".Lab.GetThing"], "generate_omitted_as_internal": True}}}}]}}
+    try:
+        _, res = G.generate(files(), "", service_yaml=yaml, extra_dep_modules=(iam_policy_pb2,))
+        by = {f.name: f.content for f in res.file}
+
+        def doc_of(fname, meth):
+            t = ast.parse(by[fname])
+            f_ = next((n for n in ast.walk(t) if isinstance(n, (ast.FunctionDef, ast.AsyncFunctionDef)) and n.name == meth), None)
+            return None if f_ is None else (ast.get_docstring(f_) or "")
+        for fname, want_async in (("acme/lab_v1/services/lab/client.py", False), ("acme/lab_v1/services/lab/async_client.py", True)):
+            d = doc_of(fname, "_delete_thing")
+            if d is None:
+                failures.append({"what": "internal method _delete_thing not found", "file": fname})
+            elif ("async def sample_delete_thing" in d) != want_async or "def sample_delete_thing" not in d:
+                failures.append({"what": "the docstring of an internal method does not embed the sample of its own kind (sync / asyncio)", "file": fname,
+                                 "embeds_async_sample": "async def sample_delete_thing" in d, "embeds_a_sample": "def sample_delete_thing" in d})
+    except Exception as e:      # noqa
+        failures.append({"what": "generation with snippets in internal mode failed", "error": repr(e)[:200]})
+    # (b)
+    T = G.T
+    dep = G.new_file("acme/common/v1/common.proto", "acme.common.v1")
+    G.add_message(dep, "Selector", [G.F("name", 1, T.TYPE_STRING, required=True)])
+    fd = G.new_file("acme/finder/v1/finder.proto", "acme.finder.v1", deps=G.STD_DEPS + ["acme/common/v1/common.proto"])
+    G.add_message(fd, "Found", [G.F("x", 1, T.TYPE_STRING)])
+    G.add_method(G.add_service(fd, "Finder", host="finder.googleapis.com"), "Lookup", ".acme.common.v1.Selector", ".acme.finder.v1.Found", http=("post", "/v1/{name=s/*}:lookup"), body="*")
+    try:
+        _, res = G.generate([dep, fd], "proto-plus-deps=acme.common.v1", to_generate=["acme/finder/v1/finder.proto"])
+        for f in res.file:
+            if f.name.startswith("samples/generated_samples/") and f.name.endswith(".py") and "lookup" in f.name:
+                quals = set(re.findall(r"(\w+)\.Selector\(", f.content))
+                imported = set(re.findall(r"^from [\w.]+ import (\w+)", f.content, re.M))
+                if not quals or "finder_v1" in quals or not quals <= imported:
+                    failures.append({"what": "the request of another (proto-plus) package is not built from that package's module", "sample": f.name,
+                                     "qualifiers": sorted(quals), "imported": sorted(imported)})
+    except Exception as e:      # noqa
+        failures.append({"what": "generation with a proto-plus dependency request failed", "error": repr(e)[:200]})
+    return {"cases": 4, "failures": failures}
+
+
 def _resolve_dotted(path_):
     import importlib
     parts = path_.split(".")
